@@ -77,6 +77,9 @@ class Ctx:
             self.solver.add(alg.lift(a))
         self.assumptions = list(assumptions)
         self.nforks = 0
+        self.branchings = 0  # forks where both sides were feasible
+        self.frozen = False  # set after the run: lazily evaluated model closures may still consult the
+        # context, but a genuinely two-way fork can no longer be explored
 
     # ------------------------------------------------------------ naming
     def fresh_name(self, base):
@@ -130,7 +133,10 @@ class Ctx:
             else:
                 can_t = can_f = True
             if can_t and can_f:
+                if self.frozen:
+                    raise Unsupported("data-dependent branch while evaluating a postcondition (after the run)")
                 self.pending.append(self.decisions[: self.pos] + [False])
+                self.branchings += 1
                 d = True
             elif can_t:
                 d = True
@@ -229,6 +235,7 @@ def explore(run, assumptions=(), max_paths=400, check_timeout_ms=4000, prune=Tru
             if ctx.unsupported is not None:
                 # an Unsupported was swallowed by an `except` of the code under test
                 raise Unsupported(ctx.unsupported)
+        ctx.frozen = True
         paths.append(Path(ctx, kind, v, env))
         work.extend(ctx.pending)
         if len(paths) > max_paths:
